@@ -390,3 +390,154 @@ static void fam_validity()
 		}
 	R->bound = "4 algorithms x 9 hashes x expiry {0,1,3600,2^31-1} x creation {1650000000, 2^32-256} x 10 clock values x 5 key creation times";
 }
+
+// ------------------------------------------------------------------------------------------------ length classes of signature values
+// Signature values whose big-endian form starts with zero octet(s) are stored as shorter MPIs (RFC 4880 3.2) and have to be
+// padded back by the verifier (EdDSA R/S are 32 native octets; libgcrypt wants them full length).  Messages m_0, m_1, ...
+// ("length class message #i", counter-derived, no sampling) are signed until every class of
+//   {none short, first value short (R / r / RSA s), second value short (S / s), both short}
+// has been seen K times or the bound N is reached (classes not reached are reported as counters, never as violations).
+// quick: K = 2, N = 6000, 'both short' (probability 2^-16) not targeted; thorough: K = 4, N = 300000 (EdDSA) / 150000 (ECDSA) / 40000
+// (DSA) / 6000 (RSA) with 'both short' targeted (K = 1).  The Ed25519 key is derived from a fixed secret, so the class of m_i
+// is the same in every run (Ed25519 is deterministic); RSA PKCS#1 v1.5 is deterministic per key; DSA/ECDSA use libgcrypt's
+// random nonces.  Every signature of a short class and the first K of class 'none': the library must accept it
+// (sig/<algo>/short-<class>/rejected), the Python reference verifies it (pgp.sigverify), and every octet of the packet is
+// flipped (tamper_sigpkt; covers every octet of both signature values).
+
+static bool fixed_eddsa_signer(Signer &s)
+{
+	unsigned char d[32];
+	for (int i = 0; i < 32; i++)
+		d[i] = (unsigned char)(0x42 + 7 * i);
+	gcry_sexp_t p0 = NULL, key = NULL;
+	gcry_ctx_t ctx = NULL;
+	if (gcry_sexp_build(&p0, NULL, "(private-key (ecc (curve Ed25519) (flags eddsa) (d %b)))", 32, d))
+		return false;
+	if (gcry_mpi_ec_new(&ctx, p0, NULL))
+		return false;
+	gcry_mpi_t q = gcry_mpi_ec_get_mpi("q@eddsa", ctx, 1);
+	if (!q)
+		return false;
+	unsigned int nbits = 0;
+	const unsigned char *qp = (const unsigned char *)gcry_mpi_get_opaque(q, &nbits);
+	size_t qn = (nbits + 7) / 8;
+	if (!qp || (qn != 32 && !(qn == 33 && qp[0] == 0x40)))
+		return false;
+	octets pt(qp + (qn - 32), qp + qn);
+	if (gcry_sexp_build(&key, NULL, "(key-data (public-key (ecc (curve Ed25519) (flags eddsa) (q %b))) (private-key (ecc (curve Ed25519) (flags eddsa) (q %b) (d %b))))",
+		32, &pt[0], 32, &pt[0], 32, d))
+		return false;
+	pt.insert(pt.begin(), 0x40);
+	gcry_mpi_t qm = mpi_of(pt);
+	s.name = "EdDSA", s.algo = TMCG_OPENPGP_PKALGO_EDDSA, s.key = key;
+	s.pubpkt.clear();
+	L::PacketPubEncode(KEYTIME, s.algo, sizeof OID_ED25519, const_cast<tmcg_openpgp_byte_t *>(OID_ED25519), qm, TMCG_OPENPGP_HASHALGO_UNKNOWN, TMCG_OPENPGP_SKALGO_PLAINTEXT, s.pubpkt);
+	s.fields = { hex(OID_ED25519, sizeof OID_ED25519), mpihex(qm) };
+	s.body.clear(), s.fpr.clear(), s.kid.clear();
+	L::PacketBodyExtract(s.pubpkt, 0, s.body);
+	L::FingerprintCompute(s.body, s.fpr);
+	L::KeyidCompute(s.body, s.kid);
+	s.pub = NULL;
+	gcry_ctx_release(ctx);
+	return L::PublicKeyBlockParse(s.pubpkt, 0, s.pub) && s.pub;
+}
+
+static void fam_short()
+{
+	static const char *cname[4] = { "none", "first", "second", "both" };
+	for (size_t si = 0; si < SG.size(); si++)
+	{
+		Signer s = SG[si];
+		std::string cid = std::string("short:") + s.name;
+		if (!R->mine() || !R->selected(cid))
+			continue;
+		CUR_CID = cid;
+		mcenv::set_clock(SIGTIME);
+		bool fixedkey = false;
+		if (s.algo == TMCG_OPENPGP_PKALGO_EDDSA)
+		{
+			Signer f;
+			if (fixed_eddsa_signer(f))
+				s = f, fixedkey = true;
+			else
+				R->counters["short_eddsa_fixed_key_unavailable"] = 1;
+		}
+		size_t full;
+		bool two = s.algo != TMCG_OPENPGP_PKALGO_RSA;
+		if (s.algo == TMCG_OPENPGP_PKALGO_RSA) full = (gcry_mpi_get_nbits(K.rsa_n) + 7) / 8;
+		else if (s.algo == TMCG_OPENPGP_PKALGO_DSA) full = (gcry_mpi_get_nbits(K.dsa_q) + 7) / 8;
+		else full = 32;
+		size_t Kq = TH ? 4 : 2, N = 6000;
+		if (TH && s.algo == TMCG_OPENPGP_PKALGO_EDDSA) N = 300000;
+		if (TH && s.algo == TMCG_OPENPGP_PKALGO_ECDSA) N = 150000;   // about 1 ms per message
+		if (TH && s.algo == TMCG_OPENPGP_PKALGO_DSA) N = 40000;
+		size_t want[4] = { Kq, Kq, two ? Kq : 0, (two && TH) ? 1u : 0u }, seen[4] = { 0, 0, 0, 0 }, checked[4] = { 0, 0, 0, 0 };
+		octets prep;
+		const int h = 8;
+		L::PacketSigPrepareDetachedSignature(TMCG_OPENPGP_SIGNATURE_BINARY_DOCUMENT, s.algo, TMCG_OPENPGP_HASHALGO_SHA256, SIGTIME, 0, "", s.fpr, prep);
+		size_t i = 0;
+		for (; i < N; i++)
+		{
+			if (seen[0] >= want[0] && seen[1] >= want[1] && seen[2] >= want[2] && seen[3] >= want[3])
+				break;
+			if ((i & 1023) == 0 && R->out_of_time())
+				break;
+			std::string m = "length class message #" + str(i);
+			octets doc = bytes_of(m), hash, left, pkt;
+			L::BinaryDocumentHash(doc, prep, TMCG_OPENPGP_HASHALGO_SHA256, hash, left);
+			if (!make_sig(s, prep, hash, left, h, pkt))
+			{
+				R->viol("sig/sign-failed", std::string(s.name) + " cannot sign message #" + str(i), cid);
+				break;
+			}
+			// class by the independent parser: octet lengths of the MPI values without leading zeros
+			PktView v = view_packet(pkt);
+			SigSem sem = sig_semantics(v.body);
+			if (!v.ok || !sem.ok)
+			{
+				R->viol("sig/own-packet-unparseable", "independent parser cannot read " + hex(pkt).substr(0, 200), cid);
+				break;
+			}
+			bool s1 = sem.mpis[0].size() < full, s2 = two && sem.mpis[1].size() < full;
+			int cls = (s1 ? 1 : 0) + (s2 ? 2 : 0);
+			seen[cls]++;
+			// class 'none': only the first K; short classes: every one found
+			if (cls == 0 && checked[0] >= Kq)
+				continue;
+			checked[cls]++;
+			Target t;
+			t.kind = 0, t.data = doc;
+			bool acc = lib_verify(pkt, s.pub->key, t);
+			R->ok(true);
+			if (!acc)
+				R->viol(std::string("sig/") + s.name + "/short-" + cname[cls] + "/rejected", std::string(s.name) + " signature over message #" + str(i) + " with value lengths " + str(sem.mpis[0].size()) + (two ? "," + str(sem.mpis[1].size()) : std::string()) +
+					" of " + str(full) + " octets is rejected by the library; packet " + hex(pkt), cid);
+			// under the full key pair as returned by libgcrypt as well (the path t-rfc4880 uses)
+			if (acc && !lib_verify(pkt, s.key, t))
+				R->viol(std::string("sig/") + s.name + "/short-" + cname[cls] + "/rejected-under-keypair", "same signature rejected under the libgcrypt key pair S-expression", cid);
+			if (checked[cls] <= 2 * Kq)   // Python verification for the first 2K of each class (pure-Python curve arithmetic is slow)
+			{
+				std::vector<std::string> a = { num(s.algo) };
+				a.insert(a.end(), s.fields.begin(), s.fields.end());
+				a.push_back(hex(pkt)), a.push_back("binary"), a.push_back(""), a.push_back(hex(doc));
+				RO.emit("pgp.sigverify", a, "1", cid);
+			}
+			if (acc && checked[cls] <= Kq)
+				tamper_sigpkt(pkt, s.pub->key, t, cid, std::string("short-") + cname[cls]);
+			if (cls && R->samples_emitted < 2)
+				R->sample(cid, std::string(s.name) + " message #" + str(i) + ": class '" + cname[cls] + "' (value octets " + str(sem.mpis[0].size()) + (two ? "/" + str(sem.mpis[1].size()) : std::string()) + " of " + str(full) + ")");
+		}
+		for (int c = 0; c < 4; c++)
+		{
+			R->counters[std::string("lenclass_") + s.name + "_" + cname[c] + "_seen"] = seen[c];
+			R->counters[std::string("lenclass_") + s.name + "_" + cname[c] + "_verified"] = checked[c];
+			if (seen[c] < want[c])
+				R->counters[std::string("lenclass_") + s.name + "_" + cname[c] + "_NOT_REACHED"] = 1;
+		}
+		R->counters[std::string("lenclass_") + s.name + "_messages_signed"] = i;
+		if (fixedkey)
+			R->counters["lenclass_EdDSA_fixed_key"] = 1;
+	}
+	R->bound = std::string("messages #0.. until every targeted class of {none, first short, second short") + (TH ? ", both short" : "") + "} is seen " + (TH ? "4 (both: 1)" : "2") +
+		" times, at most " + (TH ? "300000 (EdDSA) / 150000 (ECDSA) / 40000 (DSA) / 6000 (RSA)" : "6000") + " messages per algorithm";
+}
